@@ -40,6 +40,13 @@ CHECKS["C05"] = dict(
     technique="forward must-dataflow (guard dominance at accept events) + may-analysis over exceptional edges on the clang CFG",
 )
 
+CHECKS["C06"] = dict(
+    text="Static decision of the rejection clause ('invalid padding, wrong length or failed authentication are rejected with an error rather than returning data') over the nine cp_*_dec functions and all 14 writes through (out, *out_len) parameter pairs: unsigned arithmetic on untrusted lengths cannot wrap (LEN-SUB, extent prover over dataflow facts), writes through the output fit the announced capacity (OUT-CAP) and are dominated by the recorded authentication / padding gates (OUT-GATE, table sa/tables/c06_gates.json: ECIES tag comparison, RSA padding status), and after a failed check no path returns RLC_OK (FAIL-ERR, may-analysis incl. exceptional edges). Decryption-inverts-encryption, homomorphisms, key agreement and share reconstruction are value properties and are not decided.",
+    design_ref="DESIGN.md section 3 (C06)",
+    note="Trusted: clang parser/CFG, extractor, extent prover (non-negative symbols), the gate table (inferred with tools/infer_c06_gates.py and read against cp_ecies_dec and cp_rsa_dec). Decryption functions with no byte output (bdpe, bgn, ghpe, phpe, shpe) have no output events; rabin/ibe have no recorded gate. Validated on every run by miniatures in sa/selftest/c06.c.",
+    technique="forward must-dataflow (gate dominance, extent proofs) + may-analysis of failure-to-status flow on the clang CFG",
+)
+
 NOT_APPLICABLE = {
     "C10": "every clause is an equality of ring elements for all operand values; no guard, ordering or ownership structure whose violation is visible in the code's shape, and lazy-reduction bounds need a relational numeric domain that goto-analyzer's intervals cannot carry across the *_low calls",
     "C11": "group law, [k]Q, Frobenius eigenvalue and cofactor image are algebraic identities over runtime values; the structural clauses (decoders, buffers, regularity) of the ep2..ep8 siblings are decided under C07, C08 and C20",
